@@ -1,6 +1,7 @@
 import SupervisorModel.Lemmas.Pool
 import SupervisorModel.Lemmas.PoolLedger
 import SupervisorModel.Lemmas.PoolOuts
+import SupervisorModel.Lemmas.PoolReg
 /-
   C09 — events reach exactly the subscribed pools, in order, and are not lost.
   Property theorems only.
@@ -24,28 +25,30 @@ theorem ancestors_closed :
     (Cls.all.all fun a => Cls.all.all fun b => !isInstance a b || b.ancestors.all (fun c => isInstance a c)) = true := by
   decide
 
-/-- **offered_to_subscribers**: `notify` runs pool `i`'s `_acceptEvent` for an event of class `c` exactly when
-    one of the types the pool is subscribed to is `c` itself or one of its supertypes -- and for no other pool. -/
-theorem offered_to_subscribers (pools : List PoolSt) (c : Cls) (i : Nat) :
-    i ∈ notified (callbacks pools) c ↔ ∃ p, pools[i]? = some p ∧ ∃ t ∈ p.subs, isInstance c t = true := by
-  simp only [notified, callbacks, List.mem_map, List.mem_filter, List.mem_flatten]
-  constructor
-  · rintro ⟨s, ⟨⟨l, hl, hs⟩, hi⟩, rfl⟩
-    rcases hl with ⟨⟨p, j⟩, hpj, rfl⟩
-    simp only [List.mem_map] at hs
-    rcases hs with ⟨t, ht, rfl⟩
-    have := List.mem_zipIdx hpj
-    simp at this
-    rcases this with ⟨hj, hp⟩
-    exact ⟨p, by rw [hp]; exact List.getElem?_eq_getElem hj, t, ht, hi⟩
-  · rintro ⟨p, hp, t, ht, hi⟩
-    refine ⟨{ type := t, who := i }, ⟨⟨p.subs.map fun t => ({ type := t, who := i } : Sub), ?_, ?_⟩, hi⟩, rfl⟩
-    · refine ⟨(p, i), ?_, rfl⟩
-      rw [List.mem_zipIdx_iff_getElem?]; simpa using hp
-    · exact List.mem_map.mpr ⟨t, ht, rfl⟩
+/-- `notify` delivers by `isinstance` (regenerated `notifyTest`) -/
+theorem delivers_is_isInstance (c t : Cls) : delivers c t = isInstance c t := by
+  simp [delivers, notifyTest]
 
-example : (0 : Nat) ∈ notified (callbacks [{ name := "a", bufSize := 3, subs := [.TICK] }]) .TICK_5 := by decide
-example : (0 : Nat) ∉ notified (callbacks [{ name := "a", bufSize := 3, subs := [.TICK_60] }]) .TICK_5 := by decide
+/-- **offered_to_subscribers**: in every state in which the registry is what the pools' `_subscribe` / `_unsubscribe`
+    calls should have left (`RegOK`: true of a freshly configured daemon, `fresh_consistent`, and kept by every
+    operation -- removals and additions of pools at run time included -- `consistent_forever`), `notify` runs pool
+    `i`'s `_acceptEvent` for an event of class `c` exactly when pool `i` is in `process_groups` and one of the types it
+    is subscribed to is `c` itself or one of its supertypes -- and for no other pool. -/
+theorem offered_to_subscribers (w : W) (hr : RegOK w) (c : Cls) (i : Nat) :
+    i ∈ acceptors w.reg c ↔ ∃ p, w.pools[i]? = some p ∧ p.active = true ∧ ∃ t ∈ p.subs, isInstance c t = true := by
+  rw [mem_acceptors]
+  constructor
+  · rintro ⟨t, hm, hd⟩
+    obtain ⟨p, hp, ha, ht⟩ := (hr.mem_subscription t i).mp hm
+    exact ⟨p, hp, ha, t, ht, by rw [← delivers_is_isInstance]; exact hd⟩
+  · rintro ⟨p, hp, ha, t, ht, hi⟩
+    exact ⟨t, (hr.mem_subscription t i).mpr ⟨p, hp, ha, ht⟩, by rw [delivers_is_isInstance]; exact hi⟩
+
+example : (0 : Nat) ∈ acceptors (boot [{ name := "a", bufSize := 3, subs := [.TICK] }]).reg .TICK_5 := by decide
+example : (0 : Nat) ∉ acceptors (boot [{ name := "a", bufSize := 3, subs := [.TICK_60] }]).reg .TICK_5 := by decide
+/-- a configured pool that has not been added (yet) is offered nothing -/
+example : (0 : Nat) ∉ acceptors (boot [{ name := "a", bufSize := 3, subs := [.TICK], active := false, used := false }]).reg .TICK_5 := by
+  decide
 
 /-! ### the documented type hierarchy
 
@@ -91,9 +94,9 @@ theorem isInstance_iff_documented (c t : Cls) : isInstance c t = docInstance c t
 /-- **offered_to_documented_subscribers**: `notify` runs pool `i`'s `_acceptEvent` for an event of type `c` exactly
     when one of the types the pool is subscribed to is `c` or one of the supertypes docs/events.rst gives `c` --
     and for no other pool.  (`docInstance` is computed from the documentation table alone.) -/
-theorem offered_to_documented_subscribers (pools : List PoolSt) (c : Cls) (i : Nat) :
-    i ∈ notified (callbacks pools) c ↔ ∃ p, pools[i]? = some p ∧ ∃ t ∈ p.subs, docInstance c t = true := by
-  rw [offered_to_subscribers]
+theorem offered_to_documented_subscribers (w : W) (hr : RegOK w) (c : Cls) (i : Nat) :
+    i ∈ acceptors w.reg c ↔ ∃ p, w.pools[i]? = some p ∧ p.active = true ∧ ∃ t ∈ p.subs, docInstance c t = true := by
+  rw [offered_to_subscribers w hr]
   simp only [isInstance_iff_documented]
 
 /-- a pool subscribed to the abstract `PROCESS_LOG` type is offered log events and no communication event;
@@ -101,7 +104,7 @@ theorem offered_to_documented_subscribers (pools : List PoolSt) (c : Cls) (i : N
 example :
     let pools : List PoolSt := [{ name := "log", bufSize := 3, subs := [.PROCESS_LOG] },
                                 { name := "com", bufSize := 3, subs := [.PROCESS_COMMUNICATION] }]
-    notified (callbacks pools) .PROCESS_LOG_STDOUT = [0] ∧ notified (callbacks pools) .PROCESS_COMMUNICATION_STDOUT = [1] ∧
+    acceptors (boot pools).reg .PROCESS_LOG_STDOUT = [0] ∧ acceptors (boot pools).reg .PROCESS_COMMUNICATION_STDOUT = [1] ∧
     docInstance .PROCESS_COMMUNICATION_STDOUT .PROCESS_LOG = false := by decide
 
 /-- **buffer_bounded**: for every history (every list of operations: notifications, listener output in any
@@ -117,7 +120,7 @@ theorem buffer_bounded (h : Bytes → Listener.HRes) (w0 : W) (ops : List Op) (j
   cases hq
   exact ⟨g.1, g.2.2 hsz hb0⟩
 
-/-- the number of pools never changes either -/
+/-- the number of pool slots (configured pools, whether currently in `process_groups` or not) never changes either -/
 theorem pools_fixed (h : Bytes → Listener.HRes) (w0 : W) (ops : List Op) :
     (exec h w0 ops).pools.length = w0.pools.length := (evolves_exec h w0 ops).1
 
@@ -128,7 +131,7 @@ example : ∃ p0 : PoolSt, (1 : Int) ≤ p0.bufSize ∧ (p0.buffer.length : Int)
     (`if len(buffer) >= size: if buffer: pop`), so the statement's "at most buffer_size" needs `buffer_size ≥ 1`
     (options.py rejects `buffer_size < 1`, so configured pools satisfy the hypothesis) -/
 theorem buffer_size_zero_holds_one :
-    ((notify .TICK_5 [] { pools := [{ name := "a", bufSize := 0, subs := [.TICK] }] }).pools.map (·.buffer)) = [[0]] := by
+    ((notify .TICK_5 [] (boot [{ name := "a", bufSize := 0, subs := [.TICK] }])).pools.map (·.buffer)) = [[0]] := by
   decide
 
 /-- **reject_isolated**: an `EventRejectedEvent` coming from the process object `who` leaves every pool that does
@@ -154,10 +157,10 @@ example :
     repeated offer the identity -- for every world, every event class and every subscription table. -/
 theorem offered_once (c : Cls) (payload : Bytes) (w : W) (he : w.err = none) :
     notify c payload w =
-      offer w.events.length (keepFirst (notified (callbacks w.pools) c))
+      offer w.events.length (keepFirst (acceptors w.reg c))
         { w with events := w.events ++ [{ cls := c, payload := payload }] } ∧
-    (keepFirst (notified (callbacks w.pools) c)).Nodup ∧
-    (∀ i, i ∈ keepFirst (notified (callbacks w.pools) c) ↔ i ∈ notified (callbacks w.pools) c) := by
+    (keepFirst (acceptors w.reg c)).Nodup ∧
+    (∀ i, i ∈ keepFirst (acceptors w.reg c) ↔ i ∈ acceptors w.reg c) := by
   refine ⟨?_, nodup_keepFirstN _ _ (Nat.le_refl _), fun i => mem_keepFirstN i _ _ (Nat.le_refl _)⟩
   rw [notify_eq_offer c payload w he]
   exact offer_keepFirstN _ _ _ _ (Nat.le_refl _)
@@ -187,14 +190,18 @@ theorem overflow_drops_oldest_only (i e : Nat) (head : Bool) (w : W) (p : PoolSt
 
 /-- **reject_returns_to_head** (universal): an `EventRejectedEvent` from a listener of pool `pi` for an event that
     pool had accepted puts the event at the head of pool `pi`'s buffer (dropping, with a log entry, the oldest
-    buffered event if the buffer is full) -/
+    buffered event if the buffer is full).  The pool is in `process_groups` and the registry is in order (`RegOK`, an
+    invariant of every history: `consistent_forever`): a pool whose `handle_rejected` is no longer subscribed -- which is
+    what a faulty `unsubscribe` of *another* pool would cause -- does not get the event back (`rejected_unsubscribed`). -/
 theorem reject_returns_to_head (who : Option Nat) (pi e : Nat) (w : W) (h : Acc w pi e)
+    (hr : RegOK w) (hact : ∀ p, w.pools[pi]? = some p → p.active = true)
     (hown : ∀ p, w.pools[pi]? = some p → owns p who = true)
     (hothers : ∀ i, i ≠ pi → ∀ q, w.pools[i]? = some q → owns q who = false) :
     ∃ p p', w.pools[pi]? = some p ∧ (rejected who e w).pools[pi]? = some p' ∧
       p'.buffer = e :: (if overflowed p then p.buffer.drop 1 else p.buffer) := by
   obtain ⟨p, ev, hp, hev, hl, hs⟩ := h
-  rw [rejected_eq who pi e w p hp (hown p hp) hothers, rebuffer_eq_insertEv pi e w ⟨p, ev, hp, hev, hl, hs⟩]
+  rw [rejected_eq who pi e w p hp hr.rejecters_nodup ((hr.mem_rejecters pi).mpr ⟨p, hp, hact p hp⟩) (hown p hp) hothers,
+    rebuffer_eq_insertEv pi e w ⟨p, ev, hp, hev, hl, hs⟩]
   obtain ⟨h1, _⟩ := insertEv_spec pi e true w p hp
   exact ⟨p, _, hp, h1, by rw [(insBuf_fields e true p).2.2.2.2.2]; simp⟩
 
@@ -254,7 +261,7 @@ def Consistent (h : Bytes → Listener.HRes) (w : W) : Prop := J h w 0 (fun _ =>
     `[eventlistener:x]` section names), any subscriptions, buffer sizes and numbers of listeners; counters at their
     initial value, empty buffers, listeners holding nothing, no event emitted yet -- is consistent. -/
 theorem fresh_consistent (h : Bytes → Listener.HRes) (ps : List PoolSt) (hf : FreshPools ps) :
-    Consistent h { pools := assignIds 0 ps } := j_fresh h ps hf 0
+    Consistent h (boot (assignIds 0 ps)) := j_fresh h ps hf 0
 
 /-- **consistent_forever**: whatever happens (any list of operations), a consistent daemon stays consistent. -/
 theorem consistent_forever (h : Bytes → Listener.HRes) (w0 : W) (ops : List Op) (hc : Consistent h w0) :
@@ -274,7 +281,7 @@ theorem demoPools_fresh : FreshPools demoPools := by
     exact ⟨Listener.lok_initial, rfl⟩
 
 /-- ... and so is `Consistent`, the hypothesis of every history theorem below -/
-example (h : Bytes → Listener.HRes) : Consistent h { pools := assignIds 0 demoPools } :=
+example (h : Bytes → Listener.HRes) : Consistent h (boot (assignIds 0 demoPools)) :=
   fresh_consistent h demoPools demoPools_fresh
 
 /-- how many of the events emitted before event `e` carry a serial -/
@@ -318,7 +325,7 @@ theorem serAt_period (k : Nat) : serAt (k + (maxint + 1).toNat) = serAt k := by
 
 /-- the hypotheses of `serial_unique` are met by a concrete history: two ticks, serials 0 and 1 -/
 example :
-    let w := exec Listener.defaultHandler { pools := assignIds 0 [{ name := "a", bufSize := 3, subs := [.TICK], procs := [Listener.initial] }] }
+    let w := exec Listener.defaultHandler (boot (assignIds 0 [{ name := "a", bufSize := 3, subs := [.TICK], procs := [Listener.initial] }]))
       [.notify .TICK_5 [], .notify .TICK_60 []]
     w.events.map (·.serial) = [some 0, some 1] ∧ w.gserial = 1 := by decide
 
@@ -359,8 +366,8 @@ theorem poolserial_unique (h : Bytes → Listener.HRes) (w0 : W) (ops : List Op)
 /-- three events, the second of a type pool "a" is not subscribed to: it gets a serial from pool "b" only, and
     pool "a"'s poolserials count pool "a"'s acceptances (0, 1), not the serials (0, 2) -/
 example :
-    let w := exec Listener.defaultHandler { pools := assignIds 0 [{ name := "a", bufSize := 3, subs := [.TICK_5], procs := [Listener.initial] },
-                                                                  { name := "b", bufSize := 3, subs := [.TICK], procs := [Listener.initial] }] }
+    let w := exec Listener.defaultHandler (boot (assignIds 0 [{ name := "a", bufSize := 3, subs := [.TICK_5], procs := [Listener.initial] },
+                                                                  { name := "b", bufSize := 3, subs := [.TICK], procs := [Listener.initial] }]))
       [.notify .TICK_5 [], .notify .TICK_60 [], .notify .TICK_5 []]
     w.events.map (fun ev => (ev.serial, ev.poolSerials.lookup "a")) = [(some 0, some 0), (some 1, none), (some 2, some 1)] := by
   decide
@@ -379,7 +386,7 @@ theorem acceptance_decided_at_emission (h : Bytes → Listener.HRes) (w0 : W) (o
 
 /-- an event that exists: after one notification the event table has one entry -/
 example :
-    (exec Listener.defaultHandler { pools := assignIds 0 [{ name := "a", bufSize := 1, subs := [.TICK], procs := [Listener.initial] }] }
+    (exec Listener.defaultHandler (boot (assignIds 0 [{ name := "a", bufSize := 1, subs := [.TICK], procs := [Listener.initial] }]))
       [.notify .TICK_5 []]).events.length = 1 := by decide
 
 /-- **conservation** (every history, every pool, every event, at every moment): an event a pool has accepted is in
@@ -408,7 +415,7 @@ theorem accepted_has_serials (h : Bytes → Listener.HRes) (w0 : W) (ops : List 
 /-- a concrete history through all four places: two ticks into a pool of buffer size 1 (the first is discarded,
     the second buffered), the listener becomes READY, is handed the second, answers OK -/
 example :
-    let w0 : W := { pools := assignIds 0 [{ name := "a", bufSize := 1, subs := [.TICK], procs := [Listener.initial] }] }
+    let w0 : W := (boot (assignIds 0 [{ name := "a", bufSize := 1, subs := [.TICK], procs := [Listener.initial] }]))
     let ops1 : List Op := [.spawn 0 0 7 [], .pstate 0 0 .running, .notify .TICK_5 [], .notify .TICK_60 []]
     let ops2 := ops1 ++ [.read 0 0 [82, 69, 65, 68, 89, 10], .transition 0]
     let ops3 := ops2 ++ [.read 0 0 [82, 69, 83, 85, 76, 84, 32, 50, 10, 79, 75]]
@@ -436,7 +443,7 @@ theorem gone_stays_gone (h : Bytes → Listener.HRes) (w0 : W) (ops more : List 
 
 /-- the hypothesis is met: in the history of the `conservation` example event 1 is discarded after four operations -/
 example :
-    let w := exec Listener.defaultHandler { pools := assignIds 0 [{ name := "a", bufSize := 1, subs := [.TICK], procs := [Listener.initial] }] }
+    let w := exec Listener.defaultHandler (boot (assignIds 0 [{ name := "a", bufSize := 1, subs := [.TICK], procs := [Listener.initial] }]))
       [.spawn 0 0 7 [], .pstate 0 0 .running, .notify .TICK_5 [], .notify .TICK_60 []]
     okCount Listener.defaultHandler 0 1 w.outs + discardCount 0 1 w.outs = 1 := by decide +kernel
 
@@ -453,27 +460,170 @@ theorem draw_order_irrelevant (i e : Nat) (head : Bool) (p : PoolSt) (w : W) :
   · rfl
   · exact stamp_insertEv_comm i e head p w
 
+/-! ### the subscription registry; pools removed and added while the daemon runs
+
+  `events.callbacks` is a list of (type, callback) pairs.  `subscribe` / `unsubscribe` below are the interpreters
+  (Model/Events.lean) of the shapes regenerated from supervisor/events.py (`subscribeShape`, `unsubscribeShape`, and for
+  a filtering `unsubscribe` its keep-condition `unsubKeep`); `removeOp` / `addOp` execute the statement lists regenerated
+  from `Supervisor.remove_process_group` / `add_process_group` with `before_remove()` = `_unsubscribe()` and
+  `make_group()` = `EventListenerPool(config)` (which subscribes). -/
+
+/-- **unsubscribe_removes_exactly_that_pair**: for every registry (any types, any callbacks, duplicates allowed),
+    `unsubscribe(t, c)` leaves every *other* (type, callback) pair exactly as often in the registry as before and in the
+    same order -- in particular every other pool's subscriptions, to the same type or to other types, and every other
+    pool's `EventRejectedEvent` subscription -- and takes out (at least) one copy of `(t, c)` itself; a pair that was
+    subscribed once is gone. -/
+theorem unsubscribe_removes_exactly_that_pair {τ κ : Type} [DecidableEq τ] [DecidableEq κ] (t : τ) (c : κ) (r : List (τ × κ)) :
+    (∀ x, x ≠ (t, c) → (unsubscribe t c r).count x = r.count x) ∧
+    (∀ x, x ≠ (t, c) → (x ∈ unsubscribe t c r ↔ x ∈ r)) ∧
+    (unsubscribe t c r).Sublist r ∧
+    (unsubscribe t c r).count (t, c) ≤ r.count (t, c) - 1 ∧
+    (r.count (t, c) ≤ 1 → (t, c) ∉ unsubscribe t c r) :=
+  ⟨fun x hx => count_unsubscribe_other t c x r hx, fun x hx => mem_unsubscribe_other t c x r hx,
+   unsubscribe_sublist t c r, count_unsubscribe_self_le t c r, not_mem_unsubscribe_self t c r⟩
+
+/-- **subscribe_adds_exactly_that_pair** -/
+theorem subscribe_adds_exactly_that_pair {τ κ : Type} [DecidableEq τ] [DecidableEq κ] (t : τ) (c : κ) (r : List (τ × κ)) (x : τ × κ) :
+    (subscribe t c r).count x = r.count x + (if x = (t, c) then 1 else 0) := count_subscribe t c x r
+
+/-- two pools subscribed to the same type, both with their `EventRejectedEvent` subscription: unsubscribing pool 0's pair
+    leaves pool 1's three entries -/
+example :
+    unsubscribe (RTy.cls .TICK) (Cb.accept 0)
+      [(RTy.cls .TICK, Cb.accept 0), (RTy.rejected, Cb.handleRejected 0), (RTy.cls .TICK, Cb.accept 1), (RTy.rejected, Cb.handleRejected 1)] =
+      [(RTy.rejected, Cb.handleRejected 0), (RTy.cls .TICK, Cb.accept 1), (RTy.rejected, Cb.handleRejected 1)] := by decide
+
+/-- what a group call did not touch in the registry: the entries of every pool other than `pi` -/
+def OtherEntry (pi : Nat) : Entry → Prop
+  | (_, .accept j) => j ≠ pi
+  | (_, .handleRejected j) => j ≠ pi
+
+theorem otherEntry_not_mem (pi : Nat) (p : PoolSt) (x : Entry) (hx : OtherEntry pi x) :
+    (regEntries pi p poolSubscribe).count x = 0 := by
+  rw [regEntries_subscribe]
+  obtain ⟨t, c⟩ := x
+  cases t <;> cases c <;> simp only [OtherEntry] at hx <;> simp [hx]
+
+/-- **removal_leaves_other_pools_subscribed**: `remove_process_group(pi)` -- refused or not -- leaves every entry of every
+    other pool in the registry, as often as before: the other pools stay subscribed to all their types (shared with the
+    removed pool or not) and keep their `EventRejectedEvent` subscription. -/
+theorem removal_leaves_other_pools_subscribed (pi : Nat) (w : W) (x : Entry) (hx : OtherEntry pi x) :
+    (removeOp pi w).reg.count x = w.reg.count x := by
+  unfold removeOp
+  split
+  · rfl
+  · cases hp : w.pools[pi]? with
+    | none => simp [removeRun, hp]
+    | some p =>
+      rw [removeRun_eq pi w p hp]
+      split
+      · rfl
+      · simp only []
+        rw [reg_of_rview (rview_notify _ _ _)]
+        show (unsubscribePool pi p w.reg).count x = _
+        unfold unsubscribePool
+        rw [regEntries_unsubscribe]
+        exact count_foldl_unsubscribe_other x _ _ (List.count_eq_zero.mp (otherEntry_not_mem pi p x hx))
+
+/-- ... hence they are offered the same events as before and get their rejected events back as before -/
+theorem removal_keeps_other_pools_offered (pi j : Nat) (hj : j ≠ pi) (w : W) (c : Cls) :
+    (j ∈ acceptors (removeOp pi w).reg c ↔ j ∈ acceptors w.reg c) ∧
+    (j ∈ rejecters (removeOp pi w).reg ↔ j ∈ rejecters w.reg) := by
+  constructor
+  · rw [mem_acceptors, mem_acceptors]
+    have : ∀ t, (RTy.cls t, Cb.accept j) ∈ (removeOp pi w).reg ↔ (RTy.cls t, Cb.accept j) ∈ w.reg := by
+      intro t
+      rw [← List.count_pos_iff, ← List.count_pos_iff, removal_leaves_other_pools_subscribed pi w _ (by simpa [OtherEntry] using hj)]
+    simp only [this]
+  · rw [← List.count_pos_iff, ← List.count_pos_iff, count_rejecters, count_rejecters,
+      removal_leaves_other_pools_subscribed pi w _ (by simpa [OtherEntry] using hj)]
+
+/-- **refused_removal_changes_nothing**: `remove_process_group` of a pool that still has a live listener answers False
+    and changes nothing at all -- not the table, not the registry (the pool stays subscribed), no event is emitted. -/
+theorem refused_removal_changes_nothing (pi : Nat) (w : W) (p : PoolSt) (hp : w.pools[pi]? = some p)
+    (hu : unstopped p = true) : removeOp pi w = w ∧ (removeRun pi w).2 = some false := by
+  rw [removeOp, removeRun_eq pi w p hp]
+  simp [hu]
+
+/-- **removed_pool_is_unsubscribed**: after a removal that went through (no live listener), the pool is out of the table,
+    none of its callbacks is in the registry any more (it is offered nothing, told of no rejection), PROCESS_GROUP_REMOVED
+    was emitted -- to the pools that are still there -- and the call answered True. -/
+theorem removed_pool_is_unsubscribed (pi : Nat) (w : W) (p : PoolSt) (hr : RegOK w) (he : w.err = none)
+    (hp : w.pools[pi]? = some p) (hu : unstopped p = false) :
+    (removeRun pi w).2 = some true ∧
+    removeOp pi w = notify .PROCESS_GROUP_REMOVED (groupPayload p.name) (deactivate pi p w) ∧
+    (∀ c, pi ∉ acceptors (removeOp pi w).reg c) ∧ pi ∉ rejecters (removeOp pi w).reg ∧
+    ((removeOp pi w).pools[pi]?).map (·.active) = some false := by
+  have hop : removeOp pi w = notify .PROCESS_GROUP_REMOVED (groupPayload p.name) (deactivate pi p w) := by
+    rw [removeOp, removeRun_eq pi w p hp]; simp [hu, he]
+  have hrd : RegOK (deactivate pi p w) := regOK_deactivate pi p w hp hr
+  have hrn : RegOK (removeOp pi w) := by rw [hop]; exact hrd.congr (rview_notify _ _ _)
+  have hact : ((removeOp pi w).pools[pi]?).map (·.active) = some false := by
+    rw [hop, active_of_rview (rview_notify _ _ _) pi]
+    simp only [deactivate]
+    rw [getElem?_setPool]; simp [hp]
+  have hna : ¬ ∃ q, (removeOp pi w).pools[pi]? = some q ∧ q.active = true := by
+    rintro ⟨q, hq, ha⟩
+    rw [hq] at hact; simp [ha] at hact
+  refine ⟨by rw [removeRun_eq pi w p hp]; simp [hu], hop, ?_, ?_, hact⟩
+  · intro c hm
+    obtain ⟨q, hq, ha, _⟩ := (offered_to_subscribers _ hrn c pi).mp hm
+    exact hna ⟨q, hq, ha⟩
+  · intro hm
+    exact hna ((hrn.mem_rejecters pi).mp hm)
+
+/-- **subscriptions_follow_the_table** (every history: notifications, listener traffic, deaths, respawns, pools removed
+    -- also refused -- and added at run time): at every moment a pool is offered an event exactly when it is in
+    `process_groups` and subscribed to the event's type or one of its documented supertypes, and `EventRejectedEvent`s are
+    delivered to exactly the pools in `process_groups`, once each.  So a pool that is still in the table is offered every
+    later event of its subscribed types and gets its rejected events back, whatever happened to other pools. -/
+theorem subscriptions_follow_the_table (h : Bytes → Listener.HRes) (w0 : W) (ops : List Op) (hc : Consistent h w0) :
+    (∀ c i, i ∈ acceptors (exec h w0 ops).reg c ↔
+      ∃ p, (exec h w0 ops).pools[i]? = some p ∧ p.active = true ∧ ∃ t ∈ p.subs, docInstance c t = true) ∧
+    (∀ i, i ∈ rejecters (exec h w0 ops).reg ↔ ∃ p, (exec h w0 ops).pools[i]? = some p ∧ p.active = true) ∧
+    (rejecters (exec h w0 ops).reg).Nodup := by
+  have hr := (consistent_forever h w0 ops hc).rg
+  exact ⟨fun c i => offered_to_documented_subscribers _ hr c i, hr.mem_rejecters, hr.rejecters_nodup⟩
+
+/-- two pools sharing TICK; pool 0 is removed (no live listener): pool 1 keeps its TICK and `EventRejectedEvent`
+    subscriptions, pool 0 has none left; pool 0's slot cannot come back, a new pool is added in slot 2 -/
+example :
+    let ps : List PoolSt := [{ name := "a", bufSize := 3, subs := [.TICK, .TICK_5], procs := [Listener.initial] },
+                              { name := "b", bufSize := 3, subs := [.TICK], procs := [Listener.initial] },
+                              { name := "c", bufSize := 3, subs := [.PROCESS_GROUP], procs := [Listener.initial], active := false, used := false }]
+    let w := exec Listener.defaultHandler (boot (assignIds 0 ps)) [.remove 0, .add 2, .notify .TICK_5 []]
+    acceptors w.reg .TICK_5 = [1] ∧ (rejecters w.reg).length = 2 ∧ 1 ∈ rejecters w.reg ∧ 2 ∈ rejecters w.reg ∧
+    w.pools.map (·.buffer) = [[], [2], [1]] ∧
+    w.events.map (·.cls) = [.PROCESS_GROUP_REMOVED, .PROCESS_GROUP_ADDED, .TICK_5] := by decide +kernel
+
+/-- a refused removal: the listener of pool 0 is alive -/
+example :
+    let ps : List PoolSt := [{ name := "a", bufSize := 3, subs := [.TICK], procs := [Listener.initial] }]
+    let w := exec Listener.defaultHandler (boot (assignIds 0 ps)) [.spawn 0 0 7 [], .remove 0, .notify .TICK_5 []]
+    acceptors w.reg .TICK_5 = [0] ∧ rejecters w.reg = [0] ∧ w.pools.map (·.active) = [true] ∧ w.pools.map (·.buffer) = [[1]] := by
+  decide +kernel
+
 /-! ### concrete regression instances (finite evaluations of the model, not the universal claims) -/
 
 def tickPool : PoolSt := { name := "a", bufSize := 3, subs := [.TICK, .TICK_5], procs := [Listener.initial] }
 
 /-- F16 (fixed): a pool subscribed to `TICK` and `TICK_5` is called twice by `notify` but buffers the event once -/
 theorem offered_once_instance :
-    (notified (callbacks [tickPool]) .TICK_5) = [0, 0] ∧
-    ((notify .TICK_5 [] { pools := [tickPool] }).pools.map (·.buffer)) = [[0]] := by decide
+    (acceptors (boot [tickPool]).reg .TICK_5) = [0, 0] ∧
+    ((notify .TICK_5 [] (boot [tickPool])).pools.map (·.buffer)) = [[0]] := by decide
 
 /-- F1 (fixed): a rejection by a listener of pool 0 re-buffers the event in pool 0 only, although pool 1 has a
     listener of the same name -/
 theorem reject_isolated_instance :
-    let w0 : W := { pools := [{ tickPool with subs := [.TICK_5], ids := [0], names := ["l0"] },
-                              { tickPool with name := "b", subs := [.TICK_60], ids := [1], names := ["l0"] }] }
+    let w0 : W := boot [{ tickPool with subs := [.TICK_5], ids := [0], names := ["l0"] },
+                        { tickPool with name := "b", subs := [.TICK_60], ids := [1], names := ["l0"] }]
     let w1 := notify .TICK_5 [] w0
     let w2 := setPool w1 0 (fun p => { p with buffer := [] })      -- the event is out with a listener
     ((rejected (whoOf w2 0 0) 0 w2).pools.map (·.buffer)) = [[0], []] := by decide
 
 /-- overflow: a full buffer (size 1) drops its oldest event, with a log entry, and keeps the new one -/
 theorem overflow_drops_oldest_instance :
-    let w0 : W := { pools := [{ tickPool with bufSize := 1 }] }
+    let w0 : W := boot [{ tickPool with bufSize := 1 }]
     let w2 := notify .TICK_5 [] (notify .TICK_5 [] w0)
     (w2.pools.map (·.buffer)) = [[1]] ∧ w2.outs.length = 1 := by decide
 
